@@ -161,7 +161,7 @@ class Closure:
         return self.ev.eval(self.node.body, env)
 
 
-_GEN: Dict[int, bool] = {}
+_GEN: Dict[Any, bool] = {}  # keyed by the function node itself (an id() can be handed out again after a tree is collected)
 
 
 def _walk_own(fn: ast.AST):
@@ -264,10 +264,10 @@ class FunctionValue:
                     env[p] = memo[key]
             else:
                 raise Undecided(f"missing argument {p} for {fn.name}")
-        isgen = _GEN.get(id(fn))
+        isgen = _GEN.get(fn)
         if isgen is None:
             isgen = any(isinstance(st, (ast.Yield, ast.YieldFrom)) for st in _walk_own(fn))
-            _GEN[id(fn)] = isgen
+            _GEN[fn] = isgen
         if isgen:
             # generator functions are evaluated eagerly: the yielded values are collected into a list
             env["__yields__"] = []
